@@ -35,6 +35,23 @@ fn main() {
     }
     let lines = Arc::new(Mutex::new(Vec::new()));
     let client = StatsdClient::builder("mm", Rec(lines.clone())).with_tag("dflt", "1").build();
+    // a thread that uses a macro while the set is (maybe) in progress: it either panics ("not set") or sends through the
+    // first client - and its read of the stored client must be ordered after the write that initialised it
+    let racer_lines = std::sync::Arc::new(std::sync::atomic::AtomicUsize::new(0));
+    let rl = racer_lines.clone();
+    let racer = std::thread::spawn(move || {
+        for i in 0..3 {
+            let r = std::panic::catch_unwind(|| {
+                statsd_meter!("racer", 1u64);
+            });
+            if r.is_ok() {
+                rl.fetch_add(1, std::sync::atomic::Ordering::SeqCst);
+            }
+            if i == 0 {
+                std::thread::yield_now();
+            }
+        }
+    });
     set_global_default(client);
     if !is_global_default_set() {
         fail("set_global_default returned but is_global_default_set() is false".into());
@@ -70,7 +87,17 @@ fn main() {
             Err(_) => fail("a macro thread died".into()),
         }
     }
-    let got = lines.lock().unwrap().clone();
+    if racer.join().is_err() {
+        fail("the racing macro thread died".into());
+    }
+    let racer_sent = racer_lines.load(std::sync::atomic::Ordering::SeqCst);
+    let mut got = lines.lock().unwrap().clone();
+    // the racer's lines (0..3 of them, all alike) are accounted for separately
+    let racer_seen = got.iter().filter(|l| l.starts_with("mm.racer:")).count();
+    if racer_seen != racer_sent {
+        fail(format!("the racing thread's macros returned normally {} times but {} of its lines reached the first client", racer_sent, racer_seen));
+    }
+    got.retain(|l| !l.starts_with("mm.racer:"));
     if !other.lock().unwrap().is_empty() {
         fail("a later set_global_default replaced the first client".into());
     }
